@@ -240,7 +240,10 @@ def rule_r2(ctx, pl: Pipeline) -> None:
     a_rows = arg_of(upd_call, upd, upd.params[0])
     a_col = arg_of(upd_call, upd, upd.params[1])
     ok1 = isinstance(a_rows, ast.Name) and a_rows.id == rows and cfg.dominates(cfg.node_of(upd_call), cfg.node_of(dd_call))
-    ok1 = ok1 and isinstance(a_col, ast.Attribute) and a_col.attr == "reaction_col"
+    from ..util import param_attrs
+
+    rc_attrs = param_attrs(f.cls, "reaction_col")
+    ok1 = ok1 and isinstance(a_col, ast.Attribute) and a_col.attr in rc_attrs
     ctx.instance("C01-R2", "refresh of reactants/products dominates decomposition", f.loc(upd_call), ok=ok1)
     if not ok1:
         ctx.finding("C01-R2", cname + ":refresh", f.loc(upd_call), "update_reactants_and_products(rows, self.reaction_col) does not dominate data_decomposer() - the verdict may be about stale text")
@@ -284,7 +287,7 @@ def rule_r2(ctx, pl: Pipeline) -> None:
     c_rows = arg_of(carbon_ctor, cinit, cinit.params[1], skip_self=True)
     c_col = arg_of(carbon_ctor, cinit, "rsmi_col", skip_self=True)
     c_atom = arg_of(carbon_ctor, cinit, "atom_type", skip_self=True) or cinit.param_defaults().get("atom_type")
-    ok4 = isinstance(c_rows, ast.Name) and c_rows.id == rows and isinstance(c_col, ast.Attribute) and c_col.attr == "reaction_col" and const_str(c_atom) == "C"
+    ok4 = isinstance(c_rows, ast.Name) and c_rows.id == rows and isinstance(c_col, ast.Attribute) and c_col.attr in rc_attrs and const_str(c_atom) == "C"
     ctx.instance("C01-R2", "carbon check runs on the same rows/column for atom type C", f.loc(carbon_ctor), ok=ok4)
     if not ok4:
         ctx.finding("C01-R2", cname + ":carbon-check-column", f.loc(carbon_ctor), "CheckCarbonBalance is not constructed with (rows, rsmi_col=self.reaction_col, atom_type='C')")
